@@ -2,20 +2,23 @@
 import histgen
 import worldgen
 import wprop
-from wprop import encode, classify_unencodable, sample  # noqa: F401
+from wprop import classify_unencodable, sample  # noqa: F401
 
 ID = "C14"
 TAGS = ["h_world"]
 CHECK_MODULE = "Check.C14Check"
-IMPORTS = ["Model.Objects", "Model.PodSpec", "Model.Backoff", "Model.ErsReconcile", "Model.EdsReconcile", "Check.World"]
+IMPORTS = ["Model.Objects", "Model.PodSpec", "Model.Backoff", "Model.ErsReconcile", "Model.EdsReconcile", "Check.World", "Check.C02Check"]
 RULE = ("(a) real ExtendedDaemonSet Reconciles over random combinations of one to four replica-set statuses (counters 0..N, every role, "
         "every subset of the Canary-Failed / Canary-Paused / PodRestarting conditions) and annotation sets; (b) real replica-set "
         "Reconciles of active and canary replica sets on random stores (status counters against the pods listed); (c) histories "
-        "in which the real controllers roll out, canary, promote and fail, every intermediate status being checked. "
+        "in which the real controllers roll out, canary, promote and fail, every intermediate status being checked; (d) histories "
+        "(template changes, node churn, commands, a template change under a freeze; a percent canary on a cluster that grows and "
+        "then shrinks below the stale resolved replicas) followed by a fair tail of reconciles of all "
+        "controllers with a kubelet, the quiescence clause being judged on the store the last two rounds left untouched. "
         "Non-trivial = a status was written.")
 ASSUMPTIONS = [
     "availability = Ready (minReadySeconds is 0 everywhere in the controller)",
-    "the quiescence clause (desired = eligible nodes, counters = pods at rest) is checked with C02's final-state monitors",
+    "quiescent = the last two fair rounds (all controllers, kubelet) created or deleted no pod and no replica set",
 ]
 CODES = {
     1: "model does not predict the reconcile",
@@ -26,6 +29,8 @@ CODES = {
     14: "status.canary is set although no canary is active",
     15: "a replica-set status violates 0 <= available <= ready <= current <= desired",
     17: "status.activeReplicaSet names a replica set that was not listed",
+    18: "at rest status.desired is not the number of eligible nodes, or current/ready/available not the number of daemon pods",
+    19: "at rest status.upToDate is not the number of daemon pods of the up-to-date template",
     20: "harness panic",
 }
 GO_TIMEOUT = 1500
@@ -39,7 +44,19 @@ def generate(rng, tier, stats):
         out.append(worldgen.gen_ers_world(rng, stats, {"open_gates": rng.random() < 0.8}))
     for _ in range(25 if tier == "quick" else 400):
         out.append(histgen.gen_history(rng, stats, length=rng.choice([8, 15])))
+    import p_c02
+    out += p_c02.gen_cases(rng, stats, 10 if tier == "quick" else 200)
+    for _ in range(6 if tier == "quick" else 60):
+        out.append(p_c02.shrinking_cluster_case(rng, stats))
     return out
+
+
+def encode(c, r):
+    import p_c02
+    if "tail_rounds" in c:
+        return p_c02.encode(c, r)
+    lits = wprop.encode(c, r)
+    return None if lits is None else ["(W %s)" % l for l in lits]
 
 
 def nontrivial(c, r):
